@@ -375,7 +375,9 @@ def enumerate_faults(token, plan, case):
         for where in ("unprotected", "recipient"):
             for name, value in (("zip", "DEF"), ("enc", other_enc), ("alg", "dir")):
                 yield {"kind": "unprot-set", "where": where, "name": name, "value": value}
-    for addr, kind in seg_list:
+    # two passes over the segments: length faults and splices first, the (many) bit flips last
+    for flips in (False, True):
+      for addr, kind in seg_list:
         try:
             data = rb.decode(_get(token, addr))
         except ValueError:
@@ -386,8 +388,10 @@ def enumerate_faults(token, plan, case):
             idx = addr[1] if addr[0] == "recipients" else 0
             if algs[idx] in EXPENSIVE and nbits > 64:
                 bits = sorted({b % nbits for b in case["sample_bits"]})
-        for bit in bits:
-            yield {"kind": "flip", "addr": list(addr), "seg": kind, "bit": bit}
+        if flips:
+            for bit in bits:
+                yield {"kind": "flip", "addr": list(addr), "seg": kind, "bit": bit}
+            continue
         if kind in ("tag", "iv"):
             for n in range(len(data)):
                 yield {"kind": "truncate", "addr": list(addr), "seg": kind, "n": n}
